@@ -33,8 +33,8 @@ PLANS = {
             "thorough": [seq("seq-mixed", 3000000), seq("seq-expiry", 1000000), seq("thr-iter", 1500000), seq("thr-mixed", 600000), seq("seq-wide", 60000)]},
     "C02": {"quick": [seq("thr-mixed", 160000), seq("thr-strict", 80000), seq("thr-expiry", 40000)],
             "thorough": [seq("thr-mixed", 2400000), seq("thr-strict", 1200000), seq("thr-expiry", 600000), seq("thr-iter", 300000)]},
-    "C09": {"quick": [seq("thr-mixed", 100000), seq("thr-iter", 30000), seq("burst", 5000)],
-            "thorough": [seq("thr-mixed", 1500000), seq("thr-iter", 400000), seq("burst", 80000)]},
+    "C09": {"quick": [seq("thr-mixed", 100000), seq("thr-iter", 30000), seq("burst", 5000), seq("seq-long", 4000)],
+            "thorough": [seq("thr-mixed", 1500000), seq("thr-iter", 400000), seq("burst", 80000), seq("seq-long", 60000)]},
     "C08": {"quick": [seq("seq-mixed", 200000), seq("seq-long", 4000), seq("seq-callback", 60000), seq("seq-policy", 60000), seq("thr-mixed", 80000), seq("thr-iter", 30000), seq("burst", 2000), seq("seq-wide", 2000)],
             "thorough": [seq("seq-mixed", 2000000), seq("seq-long", 60000), seq("seq-callback", 600000), seq("seq-policy", 600000), seq("thr-mixed", 1200000), seq("thr-iter", 400000), seq("burst", 40000), seq("seq-wide", 30000), seq("seq-mixed", 300000, build="asan", env=ASAN), seq("seq-long", 20000, build="asan", env=ASAN), seq("seq-callback", 100000, build="asan", env=ASAN), seq("thr-mixed", 200000, build="asan", env=ASAN), seq("thr-iter", 60000, build="asan", env=ASAN), seq("burst", 4000, build="asan", env=ASAN), {"kind": "miri", "pop": "thr-mixed", "seed": 7, "from": 0, "to": 24, "miri_seeds": 16}, {"kind": "miri", "pop": "thr-iter", "seed": 7, "from": 0, "to": 8, "miri_seeds": 16}]},
 }
@@ -42,7 +42,7 @@ PLANS = {
 RULES = {
     "C01": "runs are generated from (VERIF_SEED, population, run index); distinct = hash of (config, op trace, schedule trace); non-trivial = the run contains a lookup of a key that was previously inserted and since then updated, invalidated, evicted or seen before (i.e. not a lookup of a never-written key)",
     "C02": "threads, programs, config and the scheduling policy are generated from (VERIF_SEED, population, run index); distinct = hash of (config, programs, schedule actually taken); non-trivial = at least two threads operated on one key with overlapping invoke/return intervals and at least one preemption happened inside an operation",
-    "C09": "distinct = hash of (config, programs, schedule actually taken); non-trivial = the write channel was found full at least once, or a thread was parked at a switch point inside Inner::sync while another thread executed at least one step",
+    "C09": "distinct = hash of (config, programs, schedule actually taken); non-trivial = the write channel was found full at least once, or a thread was parked at a switch point inside Inner::sync while another thread executed at least one step, or (seq-long) a single thread issued more un-synced operations than the write queue holds",
     "C03": "distinct = hash of (config, op trace, schedule); non-trivial = a removal cause (expiry, invalidation, rejection/eviction, weight-changing update) occurred before a MUST-SEE lookup, or the run contained an insert judged by the 'fits' rule, or a post-quiescence refill was checked",
     "C04": "distinct = hash of (config, op trace, schedule); non-trivial = resident weight reached max_capacity at a quiescent point at least once, or the write channel was found full",
     "C05": "distinct = hash of (config, op trace, schedule); non-trivial = a lookup at a reading >= t_mod + ttl of an entry that an earlier lookup in the same run had seen",
